@@ -72,9 +72,35 @@ def check(report, tier, seed):
         cid = "yc%d" % j
         cases[cid] = {"text": text, "kind": "corner"}
         lines.append("%s yo %s" % (cid, lib.hexs(text)))
+    # files that are not valid UTF-8 (an I/O error for the reader): refused whole, wherever the bad byte is
+    raw_cases = {}
+    for j in range(60 if tier == "quick" else 1000):
+        text, mem = valid_listing(rng)
+        ls = text.encode().split(b"\n")
+        k = rng.randrange(len(ls))
+        bad = rng.choice([b"\xe9", b"\xff", b"\xc3(", b"caf\xe9", b"\x80\x80"])
+        where = rng.choice(["comment", "comment", "start", "data"])
+        if where == "comment":
+            ls[k] = ls[k] + b" # Ren" + bad
+        elif where == "start":
+            ls[k] = bad + ls[k]
+        else:
+            ls[k] = ls[k][:9] + bad + ls[k][9:]
+        # make sure good data lines come both before and after the bad one now and then
+        ls = [b"0x000: 01                   | first"] * rng.randint(0, 2) + ls + [b"0x010: 02                   | last"] * rng.randint(0, 2)
+        cid = "yr%d" % j
+        raw_cases[cid] = b"\n".join(ls) + b"\n"
+        lines.append("%s yo %s" % (cid, raw_cases[cid].hex()))
     impl = lib.run_cases(lib.build_harness("dev"), lines)
-    model = lib.run_cases(lib.build_driver(), lines)
+    model = lib.run_cases(lib.build_driver(), [l for l in lines if not l.startswith("yr")])
     res = collections.Counter()
+    for cid, raw in raw_cases.items():
+        a = impl.get(cid, ["MISSING"])
+        res["notutf8:" + a[0].split(" ")[0]] += 1
+        if any(l.startswith(("PANIC", "DIED", "NOT-RUN")) for l in a):
+            report.violation("yo-panic", "the loader crashed on a file that is not valid UTF-8", {"raw": raw.hex(), "impl": a})
+        elif not a[0].startswith("err"):
+            report.violation("yo-invalid-utf8-accepted", "a listing that is not valid UTF-8 was loaded (partially): %s" % a[0][:120], {"raw": raw.hex(), "impl": a})
     for cid, c in cases.items():
         a, b = impl.get(cid, ["MISSING"]), model.get(cid, ["MISSING"])
         rep = {"case": c, "impl": a, "model": b}
@@ -98,6 +124,6 @@ def check(report, tier, seed):
     report.coverage["rule"] = ("valid listings (any address 0x000-0xfff, 0-10 bytes, upper/lower hex, overlapping lines, comment-only, blank and "
                                "pipe-free lines, LF/CRLF, with/without final newline) judged against the generator's own byte map; malformed lines "
                                "(every truncation, one column replaced/inserted by blank g + | : e-acute NUL heart, odd digit counts) and corner files, "
-                               "all compared with the model; distinct = distinct file texts")
+                               "all compared with the model; files with a byte sequence that is not valid UTF-8 on any line (refused whole); distinct = distinct file texts")
     report.coverage["distribution"] = dict(res)
     report.coverage["samples"] = [cases["y0"]["text"], cases["y1"]["text"]]
